@@ -2,7 +2,7 @@
 (* Trace validation of recorded executions of FTPClient / FTPServer against Ftp.tla (batch idiom of          *)
 (* LinkTrace.tla).  A trace is [cfg |-> [clients, ext, fs, on, op, net, conn, active], ev |-> <<event..>>]. *)
 (* An event is                                                                                               *)
-(*   [ev |-> "Begin"|"SrvPort"|"SrvStor"|"SrvQuit"|"CliData"|"SrvRetr"|"Return"|"SvcReq"|"Power"|"Block"|     *)
+(*   [ev |-> "Begin"|"SrvPort"|"SrvStor"|"SrvQuit"|"CliData"|"SrvRetr"|"SendFail"|"Return"|"SvcReq"|"Power"|"Block"| *)
 (*           "CreateFile"|"DeleteFile"|"Tick"|"Env"|"Raised",                                                *)
 (*    c, node, kind, src, dst, p, size, health, verb, flag, ok, st,          (arguments / results)           *)
 (*    fs, conn, on, op, rep, active, net]      (state projected from the real objects after the call)        *)
@@ -32,7 +32,7 @@ InCall(e) == e.c \in clients /\ Open /\ call.c = e.c
 Safe(e) ==
     CASE e.ev = "SrvStor" -> InCall(e) /\ Has(e.c, call.src)
       [] e.ev = "CliData" -> InCall(e) /\ Has(Server, call.src)
-      [] e.ev \in Handlers \cup {"Return"} -> InCall(e)
+      [] e.ev \in Handlers \cup {"Return", "SendFail"} -> InCall(e)
       [] e.ev = "Begin" -> e.c \in clients /\ Quiet
       [] e.ev \in {"SvcReq", "Power", "CreateFile", "DeleteFile"} -> e.node \in Nodes /\ Quiet
       [] e.ev \in {"Block", "Tick", "Env"} -> Quiet
@@ -59,7 +59,7 @@ ExpectedOn(e) ==
     CASE e.ev = "Power" -> [on EXCEPT ![e.node] = e.flag]
       [] e.ev = "Env" -> e.on
       [] OTHER -> on
-Parts(e) == CASE e.ev \in {"Begin", "Return"} -> {e.c} [] e.ev \in Handlers -> {e.c, Server} [] OTHER -> {}
+Parts(e) == CASE e.ev \in {"Begin", "Return"} -> {e.c} [] e.ev \in Handlers \cup {"SendFail"} -> {e.c, Server} [] OTHER -> {}
 
 \* named clauses (K1..K9 of Ftp.tla), all predicates of (current spec state, event)
 Clauses(e) ==
@@ -72,14 +72,14 @@ Clauses(e) ==
         rcv == IF e.ev = "SrvStor" THEN Server ELSE e.c
     IN
     [ NoException           |-> e.ev # "Raised",
-      CallBracket           |-> s,
+      CallBracket           |-> s /\ (e.ev = "SendFail" => e.verb \in {"client", "server"}),
       HandlerOrder          |-> (s /\ h) =>
                                   CASE e.ev = "SrvPort" -> call.last \in {"Begin", "SrvPort"}
                                     [] e.ev = "SrvStor" -> call.kind = "send" /\ call.last \in {"Begin", "SrvPort"}
                                     [] e.ev = "SrvQuit" -> call.last \in {"SrvPort", "SrvStor", "SrvRetr"}
                                     [] e.ev = "CliData" -> call.kind = "retr" /\ call.last \in {"Begin", "SrvPort"}
                                     [] e.ev = "SrvRetr" -> /\ call.kind = "retr" /\ call.last \in {"Begin", "SrvPort", "CliData"}
-                                                           /\ (call.last # "CliData" => ~Has(Server, call.src)),
+                                                           /\ ((call.last # "CliData" /\ ~call.fault) => ~Has(Server, call.src)),
       ServerServes          |-> h => G_ServerServes,                                                        \* K1
       OnlyRunningClient     |-> (s /\ h) => IF e.ev = "SrvQuit" THEN on[e.c] ELSE G_OnlyRunningClient(e.c),  \* K2
       HandshakeFirst        |-> (s /\ x) => G_HandshakeFirst(e.c),                                           \* K1
@@ -102,7 +102,7 @@ Clauses(e) ==
                                   /\ e.kind = call.kind
                                   /\ e.ok = Delivered
                                   /\ ((e.ok /\ call.kind = "send") => call.quit),
-      MustSucceed           |-> (s /\ e.ev = "Return") => (Promised => e.ok),                                \* K8
+      MustSucceed           |-> (s /\ e.ev = "Return") => ((Promised /\ ~call.fault) => e.ok),                                \* K8
       ServiceStates         |-> s => (e.op = ExpectedOp(e) /\ e.on = ExpectedOn(e)
                                       /\ (e.ev = "SvcReq" => e.op[e.node] \in {op[e.node], Target(e.verb, op[e.node])})),
       ReportedState         |-> \A nd \in Nodes :                                                            \* K9
@@ -121,6 +121,7 @@ Step(e) ==
       [] e.ev = "SrvQuit" -> SrvQuit(e.c, e.st, e.active)
       [] e.ev = "CliData" -> CliData(e.c, TypeAt(e.fs, e.c, call.dst), e.active)
       [] e.ev = "SrvRetr" -> SrvRetr(e.c, e.st, e.active)
+      [] e.ev = "SendFail" -> SendFail(e.c, e.verb, e.active)
       [] e.ev = "Return"  -> Return(e.c, e.kind, e.ok, e.active)
       [] e.ev = "SvcReq"  -> SvcReq(e.node, e.verb, e.op[e.node])
       [] e.ev = "Power"   -> Power(e.node, e.flag)
